@@ -638,6 +638,13 @@ fn step(st: &mut St, toks: &[Tok]) -> String {
             Obj::Prepare(f) => obs_headers(f.headers().iter()),
             _ => "np".into(),
         },
+        ("headers_map", []) => match &mut st.obj {
+            Obj::SendRequest(f) => match f.headers_map() {
+                Ok(m) => obs_headers(m.iter()),
+                Err(e) => err_name(&e),
+            },
+            _ => "np".into(),
+        },
         ("q_is_finished", []) => match &st.obj {
             Obj::CallWithout(c) => b(c.is_finished()),
             Obj::CallWith(c) => b(c.is_finished()),
